@@ -271,7 +271,7 @@ func init() {
 	vh.Register(&vh.Check{
 		ID: "C09", Level: "model_checking",
 		Technique: "explicit-state BFS over connect / reconnect / close histories on the real pool registry (real signed vipnode_connect carrying the connection in its context, CloseRemote, NumRemotes) against a registry model, observed through a real peer request + schedule DFS of closes racing peer requests and reconnects",
-		Rule:      "all sequences over {connect(h,c), close(c)} for hosts {A,B} x connections {c1,c2,c3} (a closed connection carries no further requests) up to the depth bound; after every event a peer request started afterwards must call exactly the live most-recent connection of every host, and NumRemotes must equal the number of such hosts; states de-duplicated on (registrations, closed set, NumRemotes); races judged by a probe started after all threads finished",
+		Rule:      "all sequences over {connect(h,c), close(c)} for hosts {A,B} x connections {c1,c2,c3} (a closed connection carries no further requests) up to the depth bound; after every event a peer request started afterwards must call exactly the live most-recent connection of every host, and NumRemotes must equal the number of such hosts; states de-duplicated on (registrations, closed set, NumRemotes); races judged by a probe started after all threads finished; peer requests abandoned by the requester; hosts announcing themselves to the real binary in a one-shot HTTP POST",
 		Assumptions: []string{
 			"the link 'serve loop of a connection ends => CloseRemote is called with that connection' lives in package main (server.go) and is exercised by the wire-level checks, not here",
 			"in-flight requests racing a close are unconstrained, as the property says; only requests started later are judged",
